@@ -43,13 +43,14 @@ def materials(d):
 
 
 def split_job(job):
-    d, split, regu, matname, states, seed, generic = job
+    d, split, regu, matname, states, seed, generic = job[:7]
+    EPS = job[7] if len(job) > 7 else 1e-3
     from EasyFEA import Models
     from EasyFEA.FEM import FeArray
 
     viol = []
     PF = Models.PhaseField
-    key = f"{d}D{'generic' if generic else ''}/{split}/{matname}"
+    key = f"{d}D{'generic' if generic else ''}/{split}/{matname}" + (f"/scale{EPS:g}" if EPS != 1e-3 else "")
     if generic:
         states = [s_ for s_ in states if len({tuple(q) for q in s_["l"]}) == len(s_["l"])]   # pairwise distinct principal values only
     try:
@@ -111,18 +112,19 @@ def split_job(job):
         import traceback
 
         viol.append((f"raises/{key}", f"{key}: {type(ex).__name__}: {ex} | {traceback.format_exc()[-300:]}", {"split": split, "dim": d, "mat": matname}))
-    return {"viol": viol, "n": len(states), "keys": [(d, split, regu, matname)], "traces": 1}
+    return {"viol": viol, "n": len(states), "keys": [(d, split, regu, matname, generic, EPS)], "traces": 1}
 
 
 def neighbourhood_job(job):
     """float neighbourhoods of the lattice states: every exact state is rotated by a random (float) rotation and
     perturbed by symmetric noise of relative size pert; the oracle is numpy's eigh (independent decomposition)."""
-    d, split, matname, states, seed, pert = job
+    d, split, matname, states, seed, pert = job[:6]
+    EPS = job[6] if len(job) > 6 else 1e-3
     from EasyFEA import Models
     from EasyFEA.FEM import FeArray
 
     PF = Models.PhaseField
-    key = f"{d}Dnear/{split}/{matname}"
+    key = f"{d}Dnear/{split}/{matname}" + (f"/scale{EPS:g}" if EPS != 1e-3 else "")
     viol = []
     try:
         mat = materials(d)[matname]
@@ -158,7 +160,7 @@ def neighbourhood_job(job):
         rec = {"split": split, "dim": d, "mat": matname, "pert": pert, "seed": seed}
         if not (np.isfinite(sP).all() and np.isfinite(sM).all() and np.isfinite(pP).all() and np.isfinite(pM).all()):
             viol.append((f"finite/{key}", f"{key}: non-finite split stress / energy on float neighbours (perturbation {pert:g}) of the lattice states", rec))
-            return {"viol": viol, "n": n, "keys": [(d, split, matname, pert)], "traces": 1}
+            return {"viol": viol, "n": n, "keys": [(d, split, matname, pert, EPS)], "traces": 1}
         e = np.abs(sP + sM - sig).max() / ssc
         if e > 1e-9:
             viol.append((f"stress-partition/{key}", f"{key}: sigma+ + sigma- differs from C:eps (rel {e:.3g}) on float neighbours (perturbation {pert:g})", rec))
@@ -186,7 +188,7 @@ def neighbourhood_job(job):
         import traceback
 
         viol.append((f"raises/{key}", f"{key}: {type(ex).__name__}: {ex} | {traceback.format_exc()[-300:]}", {"split": split, "dim": d, "mat": matname}))
-    return {"viol": viol, "n": n, "keys": [(d, split, matname, pert)], "traces": 1}
+    return {"viol": viol, "n": n, "keys": [(d, split, matname, pert, EPS)], "traces": 1}
 
 
 def history_job(job):
@@ -243,6 +245,13 @@ def run(ctx):
                     jobs.append((d, split, regu, matname, sts, ctx.seed + len(jobs), False))
                     if d == 3:
                         jobs.append((d, split, regu, matname, sts, ctx.seed + len(jobs), True))
+    # Splits.tla: Homogeneous - the same states at every strain magnitude of Scales (1e-3 is the magnitude of the jobs above)
+    scales = [10.0 ** e for e in (res.prints.get("SCALES") or [[]])[0]]
+    if len(scales) < 2:
+        from harness.core import MachineryError
+
+        raise MachineryError("Splits.tla did not emit its scales")
+    jobs += [j + (sc,) for j in jobs if not j[6] and (ctx.thorough or j[2] == jobs[0][2]) for sc in scales if sc != 1e-3]
     ctx.pmap(split_job, jobs, chunksize=1)
     perts = (0.0, 1e-13, 1e-10, 1e-8, 1e-6, 1e-5, 1e-4) if ctx.thorough else (0.0, 1e-10, 1e-6, 1e-4)
     njobs = []
@@ -252,8 +261,9 @@ def run(ctx):
             for matname in ("iso", "ti"):
                 for pert in perts:
                     njobs.append((d, split, matname, sts, ctx.seed + 7919 * len(njobs), pert))
+    njobs += [j + (sc,) for j in njobs if j[5] in (0.0, 1e-6) for sc in scales if sc != 1e-3]
     ctx.pmap(neighbourhood_job, njobs, chunksize=2)
-    ctx.section("splits", strain_states=len(states), jobs=len(jobs), neighbourhood_jobs=len(njobs), perturbations=list(perts))
+    ctx.section("splits", strain_states=len(states), jobs=len(jobs), neighbourhood_jobs=len(njobs), perturbations=list(perts), strain_magnitudes=scales)
     ctx.sample({k: states[10][k] for k in ("dim", "q", "l", "eps", "sigP")})
     # ---- history
     r2 = ctx.tlc_must_hold("PhaseFieldHist", "PhaseFieldHist.cfg", what="HistoryMonotone / DamageMonotone / NoLoadNoDamage", workers=8)
